@@ -49,6 +49,8 @@ def universe():
          T({'a': 1}), T({'a': 2}), [{'a': 1}], T({}, {}), [{}, 1]]
     # numeric neighbours and more strings/dates to thicken ties and type borders
     u += [4, 5, 5.0, 4.5, -2, -2.0, 100, 100.0, 'z', 'zz', 'a', 'aa', 'aaa', ' ', 'x y']
+    u += [{'a': {'$np': ['float64', 2.0]}}, {'a': {'$np': ['int64', 2]}}, {'a': {'$np': ['float64', nan(20)]}}, {'a': {'$np': ['float64', 5.0]}}, {'a': 3}, {'a': {'$date': '2020-01-01'}}, {'a': dt('2020-01-01T00:00:00')},
+          [{'a': {'$np': ['int64', 1]}}], T({'a': {'$np': ['float32', 2.5]}}), {'a': {'b': {'$np': ['int64', 1]}}}]
     u += [2 ** 53, 2 ** 53 + 1, float(2 ** 53), 10 ** 17, 10 ** 17 + 1, 1e17, {'$np': ['int64', 2 ** 53 + 1]}, T(2 ** 53 + 1, 1), T(float(2 ** 53), 1), T(2 ** 53, 1)]   # ints that round to one float
     u += [T(0), T(0.0), T(''), T('', ''), T(0, 0), [0], [0.0], [''], T(False), [True], {'a': True}, {'a': 0}]
     u += [dt('2020-01-01T00:00:01'), {'$date': '1999-12-31'}, {'$np': ['datetime64[D]', '2021-06-30']}, T(dt('2021-06-30T00:00:00'), 1), T({'$date': '2020-01-01'}, 1)]
@@ -105,6 +107,32 @@ def cmp_laws(ctx, terms, label):
             ctx.check('cmp_int_float_equal', st == 'ok' and r == 0, lambda: 'cmp(%r, float) = %r' % (terms[i], r))
             st, r = ctx.call(cmp, (v, 'k'), (float(v), 'k'))
             ctx.check('cmp_int_float_equal', st == 'ok' and r == 0, lambda: 'cmp((%r,k), (float,k)) = %r' % (terms[i], r))
+    # numerically equal ints and floats compare 0 wherever they sit: same-shaped containers differing only in int/float spelling of equal numbers
+    def ncanon(v):
+        if isinstance(v, (bool, np.bool_)):
+            return ('b', bool(v))
+        if isinstance(v, (int, float, np.integer, np.floating)):
+            if v != v:
+                return ('nan',)
+            if abs(v) != float('inf') and abs(int(v)) >= 2 ** 53:
+                return ('big', type(v).__name__, repr(v))
+            return ('n', float(v))
+        if isinstance(v, (list, tuple)):
+            return (type(v).__name__,) + tuple(ncanon(x) for x in v)
+        if isinstance(v, dict):
+            return (type(v).__name__,) + tuple((k, ncanon(v[k])) for k in v)
+        return ('o', type(v).__name__, repr(v))
+    groups = {}
+    for i, v in enumerate(vals):
+        try:
+            groups.setdefault(ncanon(v), []).append(i)
+        except Exception:
+            pass
+    for g in groups.values():
+        for i in g:
+            for j in g:
+                if i < j and isinstance(vals[i], (list, tuple, dict)):
+                    ctx.check('cmp_int_float_equal', M[i, j] == 0 and M[j, i] == 0, lambda: 'cmp(%r, %r) = %d: same shape, numerically equal numbers' % (terms[i], terms[j], M[i, j]))
     isn = lambda v: isinstance(v, (float, np.floating)) and v != v
     fin = lambda v: isinstance(v, (int, float, np.integer, np.floating)) and not isinstance(v, (bool, np.bool_)) and v == v and abs(v) != float('inf')
     for i, v in enumerate(vals):
@@ -258,6 +286,18 @@ def run_dsort(case, ctx):
     ok = type(res) is dictable and list(res.get('id')) == exp_ids and sorted(res.keys()) == sorted(cols) and all(same(dict(a), rows[a['id']]) for a in res)
     ctx.check(mon, ok, lambda: 'sort by %s: got ids %s, stable model %s\nrows=%s' % (by, list(res.get('id')), exp_ids, rows))
     ctx.check('operands_unchanged', core.snap_same(core.snap(dict(d)), snap0), lambda: 'table modified by sort')
+    if st == 'ok' and ok and n >= 2 and 'cols' in by:
+        # sort the sorted table again after its key column was reassigned in place: a remembered 'already sorted' must not survive
+        c0 = by['cols'][0]
+        col = list(res[c0])
+        res_rows_before = [dict(r) for r in res]
+        res[c0] = col[1:] + col[:1]
+        rows3 = [dict(r) for r in res]
+        st3, res3 = ctx.call(call, res)
+        exp3 = sorted(rows3, key=functools.cmp_to_key(lambda a, b: cmp(key(a), key(b))))
+        ok3 = st3 == 'ok' and len(res3) == len(exp3) and all(same(dict(a), b) for a, b in zip(res3, exp3))
+        ctx.check('dsort_model', ok3, lambda: 'sorting again after the key column %r was reassigned: %s, model %s' % (c0, [dict(r) for r in res3] if st3 == 'ok' else res3, exp3))
+        res[c0] = col
     st2, res2 = ctx.call(call, res)
     ctx.check('dsort_idempotent', st2 == 'ok' and list(res2.get('id')) == list(res.get('id')), lambda: 'sort(sort(d)) ids %s != %s' % (list(res2.get('id')) if st2 == 'ok' else res2, list(res.get('id'))))
     ks = [key(r) for r in rows]
